@@ -116,6 +116,16 @@ def mk_bin(op, ty, a, b):
             return mk_ite(a[1], mk_bin(op, ty, a[2], b), mk_bin(op, ty, a[3], b))
         if b[0] == "ite" and _leafconst(b) and is_c(a):
             return mk_ite(b[1], mk_bin(op, ty, a, b[2]), mk_bin(op, ty, a, b[3]))
+    if bits and bits > 1 and op == "ashr" and is_c(b) and b[2] == bits - 1 and not is_c(a):
+        return mk_ite(mk_icmp("slt", ty, a, C(bits, 0)), C(bits, -1), C(bits, 0))   # the sign word
+    if bits and bits > 1 and op == "lshr" and is_c(b) and b[2] == bits - 1 and not is_c(a):
+        return mk_ite(mk_icmp("slt", ty, a, C(bits, 0)), C(bits, 1), C(bits, 0))    # the sign bit
+    if bits and op == "sub" and is_c(b) and not is_c(a):
+        op, b = "add", C(bits, -b[2])       # x - C == x + (-C)
+    if bits and bits > 1 and op in ("add", "sub") and is_c(b) and b[2] == (1 << (bits - 1)):
+        op = "xor"      # adding or subtracting the sign bit flips it
+    if bits and bits > 1 and op == "add" and is_c(a) and a[2] == (1 << (bits - 1)):
+        op = "xor"
     if bits and op == "shl" and is_c(b) and a[0] == "cast" and a[1] == "sext" and _bits(a[2]) and b[2] >= bits - _bits(a[2]):
         # every extension bit is shifted out: the kind of extension is immaterial (canonical: zext)
         a = mk_cast("zext", a[2], a[4], a[3])
@@ -125,6 +135,11 @@ def mk_bin(op, ty, a, b):
         if op == "sub" and is_c(a) and a[2] == 0 and neg_of(b) is not None:
             return neg_of(b)
         if op == "mul":
+            for p_, q_ in ((a, b), (b, a)):
+                if is_c(p_) and p_[2] == (1 << bits) - 1:
+                    return mk_bin("sub", ty, C(bits, 0), q_)                 # x * -1 == 0 - x
+                if is_c(p_) and p_[2] > 1 and p_[2] & (p_[2] - 1) == 0:
+                    return mk_bin("shl", ty, q_, C(bits, p_[2].bit_length() - 1))   # x * 2^k == x << k
             for p_, q_ in ((a, b), (b, a)):
                 if p_[0] == "op" and p_[1] == "shl" and is_c(p_[4]) and p_[4][2] < bits:
                     return mk_bin("shl", ty, mk_bin("mul", ty, p_[3], q_), p_[4])   # (x << c) * y == (x * y) << c  (mod 2^N)
@@ -399,6 +414,37 @@ def mk_call(ty, name, args):
         if _key(a0[1]) > _key(a1[1]):
             args = [a1, a0] + list(args[2:])
     bits = _bits(ty)
+    # saturating / min-max intrinsics with one constant operand: written out as the comparison they abbreviate
+    if bits and len(args) == 2 and (is_c(args[0][1]) != is_c(args[1][1])):
+        m_ = re.match(r"llvm\.(sadd|uadd|ssub|usub)\.sat\.|llvm\.(smax|smin|umax|umin)\.", n)
+        if m_:
+            kind = m_.group(1) or m_.group(2)
+            x, k = (args[0][1], args[1][1]) if is_c(args[1][1]) else (args[1][1], args[0][1])
+            k_first = is_c(args[0][1])
+            M, h = 1 << bits, 1 << (bits - 1)
+            smax_, smin_, umax_ = C(bits, h - 1), C(bits, h), C(bits, M - 1)
+            ks = sval(k)
+            if kind == "sadd":
+                if ks >= 0:
+                    return mk_ite(mk_icmp("sgt", ty, x, C(bits, (h - 1) - ks)), smax_, mk_bin("add", ty, x, k))
+                return mk_ite(mk_icmp("slt", ty, x, C(bits, -h - ks)), smin_, mk_bin("add", ty, x, k))
+            if kind == "uadd":
+                return mk_ite(mk_icmp("ugt", ty, x, C(bits, (M - 1) - k[2])), umax_, mk_bin("add", ty, x, k))
+            if kind == "ssub" and not k_first:      # x - k
+                if ks >= 0:
+                    return mk_ite(mk_icmp("slt", ty, x, C(bits, -h + ks)), smin_, mk_bin("sub", ty, x, k))
+                return mk_ite(mk_icmp("sgt", ty, x, C(bits, (h - 1) + ks)), smax_, mk_bin("sub", ty, x, k))
+            if kind == "ssub" and k_first:          # k - x
+                if ks >= 0:
+                    return mk_ite(mk_icmp("slt", ty, x, C(bits, ks - (h - 1))), smax_, mk_bin("sub", ty, k, x))
+                return mk_ite(mk_icmp("sgt", ty, x, C(bits, ks + h)), smin_, mk_bin("sub", ty, k, x))
+            if kind == "usub" and not k_first:
+                return mk_ite(mk_icmp("ult", ty, x, k), C(bits, 0), mk_bin("sub", ty, x, k))
+            if kind == "usub" and k_first:          # k - x
+                return mk_ite(mk_icmp("ugt", ty, x, k), C(bits, 0), mk_bin("sub", ty, k, x))
+            if kind in ("smax", "smin", "umax", "umin"):
+                pred = {"smax": "sgt", "smin": "slt", "umax": "ugt", "umin": "ult"}[kind]
+                return mk_ite(mk_icmp(pred, ty, x, k), x, k)
     if bits and all(is_c(a[1]) for a in args):
         vs = [a[1] for a in args]
         if n.startswith("llvm.smax."):
@@ -701,6 +747,19 @@ def gated(mod, fn, max_paths=4000):
                     continue
                 if "@llvm.dbg." in sb or "@llvm.lifetime" in sb or "llvm.experimental.noalias" in sb:
                     continue
+                if "@__cxa_allocate_exception" in sb:
+                    # the C++ throw sequence: allocate, construct (invoke), __cxa_throw(obj, typeinfo, dtor); unreachable
+                    rest = ins[ins.index(l):]
+                    text = " ".join(rest)
+                    mi = re.search(r"to label %(\S+) unwind", text)
+                    if mi and mi.group(1) in blocks:
+                        text += " " + " ".join(blocks[mi.group(1)])
+                    mt = re.search(r"@__cxa_throw\(.*?(@_ZTI\w+)", text)
+                    if mt:
+                        strs = [irmod._global_content(mod, gname) for gname in re.findall(r"@\.str[.\w]*", text)]
+                        msgs = re.findall(r'c"([^"]*?)\\00"', " ".join(strs))
+                        return ("effect", "throw", (("k", "typeinfo", mt.group(1)), ("k", "msg", msgs[0] if msgs else "")))
+                    raise Unsupported("exception allocation without a recognisable __cxa_throw")
                 # a call that never returns (next instruction is `unreachable`): an effect leaf
                 nxt = ins[ins.index(l) + 1] if ins.index(l) + 1 < len(ins) else ""
                 if sb.startswith(("call", "invoke")) and strip(nxt).startswith("unreachable"):
@@ -714,7 +773,10 @@ def gated(mod, fn, max_paths=4000):
                             else:
                                 a.append(("k", ty, irmod._GLOB_RE.sub(lambda mm: irmod._global_content(mod, mm.group(0)), part)))
                         return ("effect", m.group(2), tuple(a))
-                if sb.startswith("call") and ("@llvm.trap" in sb or "@llvm.ubsantrap" in sb):
+                if sb.startswith("call") and "@llvm.ubsantrap" in sb:
+                    mk_ = re.search(r"@llvm\.ubsantrap\(i8 (\d+)\)", sb)
+                    return ("effect", "ubsantrap", (("k", "kind", mk_.group(1) if mk_ else "?"),))
+                if sb.startswith("call") and "@llvm.trap" in sb:
                     return ("effect", "trap", ())
                 raise Unsupported("impure instruction: " + sb[:80])
             env[res] = eval_instr(body, env)
